@@ -159,6 +159,11 @@ func c13Build(seed int64) *ir.Module {
 	md4 := &metadata.Tuple{MetadataID: 7, Fields: []metadata.Field{&metadata.String{Value: "b"}}}
 	m.MetadataDefs = append(m.MetadataDefs, md3, md2, md0, md4, md1)
 	// constants of the extended-precision kinds (their printing converts the value)
+	// an array constant built up after its construction (the type is given in full,
+	// the elements are appended one by one), nested in a struct constant
+	grow := constant.NewArray(types.NewArray(3, i32), constant.NewInt(i32, 1), constant.NewInt(i32, 2))
+	grow.Elems = append(grow.Elems, constant.NewInt(i32, 3))
+	m.NewGlobalDef("grown", constant.NewStruct(types.NewStruct(types.NewArray(3, i32), i32), grow, constant.NewInt(i32, 4)))
 	m.NewGlobalDef("x87", constant.NewFloat(types.X86_FP80, 1.5))
 	m.NewGlobalDef("quad", constant.NewFloat(types.FP128, -2.25))
 	m.NewGlobalDef("", constant.NewFloat(types.PPC_FP128, 3.0))
